@@ -619,10 +619,95 @@ func (p *cparser) primary() (*CExpr, error) {
 	return nil, fmt.Errorf("unexpected %q at %d in %q", t.text, t.pos, p.src)
 }
 
-// conjuncts splits a top-level conjunction.
+// theLib gives conjuncts() access to predicate definitions (set when contracts are loaded).
+var theLib *SpecLib
+
+// conjuncts splits a goal into separately provable parts: conjunctions, conjunctive
+// consequents of implications, conjunctive bodies of universal quantifiers, and predicate
+// applications (unfolded).
 func conjuncts(e *CExpr) []*CExpr {
-	if e.Op == "binary" && e.Name == "&&" {
+	switch {
+	case e.Op == "binary" && e.Name == "&&":
 		return append(conjuncts(e.Args[0]), conjuncts(e.Args[1])...)
+	case e.Op == "binary" && e.Name == "==>":
+		var out []*CExpr
+		for _, c := range conjuncts(e.Args[1]) {
+			out = append(out, &CExpr{Op: "binary", Name: "==>", Args: []*CExpr{e.Args[0], c}})
+		}
+		return out
+	case e.Op == "forall" && len(e.Trig) == 0:
+		parts := conjuncts(e.Args[0])
+		if len(parts) == 1 {
+			return []*CExpr{e}
+		}
+		var out []*CExpr
+		for _, c := range parts {
+			out = append(out, &CExpr{Op: "forall", Vars: e.Vars, Args: []*CExpr{c}})
+		}
+		return out
+	case e.Op == "call" && theLib != nil:
+		if p, ok := theLib.Preds[e.Name]; ok && len(p.Params) == len(e.Args) {
+			sub := map[string]*CExpr{}
+			for i, prm := range p.Params {
+				sub[prm.Name] = e.Args[i]
+			}
+			if body, ok := substExpr(p.Body, sub, map[string]bool{}); ok {
+				parts := conjuncts(body)
+				if len(parts) > 1 {
+					return parts
+				}
+			}
+		}
 	}
 	return []*CExpr{e}
+}
+
+// substExpr replaces free identifiers; ok=false if a substitution would be captured by a
+// quantifier of the body (then the predicate is left folded).
+func substExpr(e *CExpr, sub map[string]*CExpr, bound map[string]bool) (*CExpr, bool) {
+	if e == nil {
+		return nil, true
+	}
+	if e.Op == "ident" {
+		if r, ok := sub[e.Name]; ok && !bound[e.Name] {
+			return r, true
+		}
+		return e, true
+	}
+	n := *e
+	if e.Op == "forall" || e.Op == "exists" {
+		nb := map[string]bool{}
+		for k := range bound {
+			nb[k] = true
+		}
+		for _, v := range e.Vars {
+			nb[v.Name] = true
+			// capture check: an argument mentioning this bound name
+			for _, a := range sub {
+				if exprMentionsIdent(a, v.Name) {
+					return nil, false
+				}
+			}
+		}
+		bound = nb
+	}
+	n.Args = make([]*CExpr, len(e.Args))
+	for i, a := range e.Args {
+		r, ok := substExpr(a, sub, bound)
+		if !ok {
+			return nil, false
+		}
+		n.Args[i] = r
+	}
+	if len(e.Trig) > 0 {
+		n.Trig = make([]*CExpr, len(e.Trig))
+		for i, a := range e.Trig {
+			r, ok := substExpr(a, sub, bound)
+			if !ok {
+				return nil, false
+			}
+			n.Trig[i] = r
+		}
+	}
+	return &n, true
 }
